@@ -12,7 +12,7 @@ TITLES = ['Main', 'Second sheet', 'S3', "T4", 'Ünï', 'Last']
 
 
 def gen_value(rng):
-    return rng.choice([1, 0, -7, 123456789, 2.5, -0.125, 1e-7, True, False, 'text', '  indented', ' ', 'ends ', 'it\'s "q"', 'a\\b', 'line1\nline2',
+    return rng.choice([1, 0, -7, 123456789, 2.5, -0.125, 1e-7, 0.1 + 0.7, 0.1 + 0.2 + 0.3, 1.4 * 3, 0.57 * 100, 1 / 3, True, False, 'text', '  indented', ' ', 'ends ', 'it\'s "q"', 'a\\b', 'line1\nline2',
                        '=A1+1', '', dt.datetime(2020, 2, 29), dt.datetime(1999, 12, 31, 23, 59, 58), 'eval', '{x}', '%s', '#'])
 
 
